@@ -116,4 +116,18 @@ def skEncode (c : Nat) (eta : Int) (rho key tr : List Nat) (s1 s2 t0 : List (Lis
   rho ++ key ++ tr ++ (s1.map (fun x => bitPack c eta x)).flatten ++ (s2.map (fun x => bitPack c eta x)).flatten ++
     (t0.map (fun x => bitPack 13 4096 x)).flatten
 
+
+/-- Algorithm 25 `skDecode(sk)`: `sk = ρ ‖ K ‖ tr ‖ y_0 .. y_{ℓ-1} ‖ z_0 .. z_{k-1} ‖ w_0 .. w_{k-1}` with `|y_i| = |z_i| = 32 c`
+    (`c = bitlen(2η)`), `|w_i| = 32 d = 416`; `s1[i] ← BitUnpack(y_i, η, η)`, `s2[i] ← BitUnpack(z_i, η, η)`,
+    `t0[i] ← BitUnpack(w_i, 2^{d-1} - 1, 2^{d-1})`.  (The standard notes that `s1`, `s2` may lie outside `[-η, η]` on malformed input.) -/
+def skDecode (c : Nat) (eta : Int) (k l : Nat) (sk : List Nat) :
+    List Nat × List Nat × List Nat × List (List Int) × List (List Int) × List (List Int) :=
+  (sk.take 32, (sk.drop 32).take 32, (sk.drop 64).take 64,
+   (List.range l).map (fun i => bitUnpack c eta ((sk.drop (128 + i * (32 * c))).take (32 * c))),
+   (List.range k).map (fun i => bitUnpack c eta ((sk.drop (128 + l * (32 * c) + i * (32 * c))).take (32 * c))),
+   (List.range k).map (fun i => bitUnpack 13 4096 ((sk.drop (128 + l * (32 * c) + k * (32 * c) + i * (32 * 13))).take (32 * 13))))
+
+/-- every coefficient of every polynomial lies in `[-a, b]` -/
+def allInRange (a b : Int) (v : List (List Int)) : Bool := v.all (fun w => w.all (fun e => decide (e ≥ -a) && decide (e ≤ b)))
+
 end Fips204.Spec
